@@ -49,7 +49,7 @@ var spec = lib.Spec{
 		"Non-trivial = some directory or file name in the tree has a blacklist entry as a proper string prefix (and is not itself excluded by the reference); distinct = JSON of the case",
 	Assumptions: []string{
 		"blacklist entries name directories, either by base name (any depth) or by path from the repo root — both readings the code implements for exact names; entries have no trailing slash",
-		"the walk root is never itself (or below) an experimental or blacklisted directory (what //experimental/... should yield is not documented)",
+		"the walk root is never an experimental directory or a directory excluded by name (what //experimental/... should yield is not documented); roots strictly below a blacklist entry given in path form are generated and must yield nothing (the code has an explicit clause for it)",
 	},
 }
 
@@ -67,7 +67,9 @@ func skipped(c walkCase, rel, base string) bool {
 		return true
 	}
 	for _, b := range c.Blacklist {
-		if (!strings.Contains(b, "/") && base == b) || rel == b {
+		if (!strings.Contains(b, "/") && base == b) || rel == b || strings.HasPrefix(rel, b+"/") {
+			// the last clause: an entry names a directory; everything beneath it is excluded too, also
+			// when the expansion starts inside it (the walk then never meets the entry itself)
 			return true
 		}
 	}
@@ -116,6 +118,11 @@ func reference(c walkCase) []string {
 			if isBuildName(ch.Name) {
 				out = append(out, p)
 			}
+		}
+	}
+	for _, b := range c.Blacklist {
+		if strings.HasPrefix(c.Root, b+"/") {
+			return nil // the walk starts inside a blacklisted directory
 		}
 	}
 	rec(find(c.Tree, c.Root), c.Root)
@@ -300,7 +307,30 @@ func gen(t *rapid.T) walkCase {
 			}
 		}
 		rec(c.Tree, "")
-		if len(dirs) > 0 {
+		// also: a walk root strictly below a blacklisted directory given in path form (expected: nothing)
+		var below []string
+		var rec2 func(d *lib.Node, rel string)
+		rec2 = func(d *lib.Node, rel string) {
+			for _, ch := range d.Children {
+				if !ch.Dir || ch.Name == "plz-out" || strings.HasPrefix(ch.Name, ".") {
+					continue
+				}
+				p := ch.Name
+				if rel != "" {
+					p = rel + "/" + ch.Name
+				}
+				for _, b := range c.Blacklist {
+					if strings.HasPrefix(p, b+"/") {
+						below = append(below, p)
+					}
+				}
+				rec2(ch, p)
+			}
+		}
+		rec2(c.Tree, "")
+		if len(below) > 0 && rapid.Bool().Draw(t, "root_below_blacklisted") {
+			c.Root = rapid.SampledFrom(below).Draw(t, "root")
+		} else if len(dirs) > 0 {
 			c.Root = rapid.SampledFrom(dirs).Draw(t, "root")
 		}
 	}
